@@ -33,6 +33,8 @@ def base_sessions():
     S["bye"] = [reset("st/bye"), call({"c": "new"}, "bye"), call({"c": "add_source", "v": A32}),
                 call({"c": "reason", "v": [97, 98], "mode": "owned"}), call({"c": "padding", "v": 4}),
                 {"op": "calc_size"}, {"op": "get_padding"}, {"op": "write_into", "rel": 2, "len": 64, "fill": 1},
+                {"op": "write_unchecked", "fill": 0, "decoy": {"kind": "bye", "calls": [{"c": "new"}, {"c": "add_source", "v": B32}]}},
+                {"op": "write_into", "rel": 1, "len": 64, "fill": 4},
                 {"op": "parse", "kind": "bye", "src": "image"}]
     ch = {"ssrc": C32, "via": "builder", "adds": [{"owned": False, "item": [{"c": "new", "type": 1, "value": [97, 98, 99], "mode": "borrowed"}]},
                                                   {"owned": True, "item": [{"c": "new", "type": 8, "value": [118], "mode": "borrowed"},
@@ -53,7 +55,7 @@ def base_sessions():
     S["iter"] = [reset("st/iter"), {"op": "cparse", "b": T1 + T3 + T2 + T1},
                  {"op": "cnext", "tile": [0, 4]}, {"op": "cnext", "tile": [4, 8]}, {"op": "cnext", "tile": [12, 8]}, {"op": "cnext"}, {"op": "cnext"}]
     S["nit"] = [reset("st/nit"), {"op": "nack_open", "b": [0, 10, 0, 5, 255, 255, 128, 0]}, {"op": "nack_iter", "it": 0}] + \
-               [{"op": "nack_next", "it": 0}] * 7
+               [{"op": "nack_next", "it": 0}] * 7 + [{"op": "nack_pair", "a": [0, 10, 0, 5], "b": [255, 255, 128, 0]}]
     S["all"] = [reset("st/all"), {"op": "parse_all", "b": [0x81, 201, 0, 7, 0, 0, 0, 1] + list(range(1, 25))}]
     S["err"] = [reset("st/err"), {"op": "parse", "kind": "rr", "b": [0x80, 201, 0, 3, 0, 0, 0, 1]},
                 {"op": "parse", "kind": "bye", "b": [0x40, 203, 0, 0]}, {"op": "cparse", "b": [0x80, 201]}]
@@ -100,6 +102,24 @@ def corruptions():
     add("sr: padded view loses a block field", "sr", ["C13"], op_is("parse_pad"), lambda e: e["res_padded"]["view"]["blocks"][0].__setitem__("fraction", 1))
     add("sr: padded view reports another padding", "sr", ["C13"], op_is("parse_pad"), lambda e: e["res_padded"]["view"]["hdr"].__setitem__("padding", 4))
     add("sr: accessor panic recorded", "sr", ["C01", "C02", "C09"], op_is("parse", kind="sr"), lambda e: e["panics"].append("blocks: boom"))
+    add("sr: repeated nth(1) yields another element", "sr", ["C02", "C09"], op_is("parse", kind="sr"),
+        lambda e: e["res"]["view"]["blocks_alt"].__setitem__("n", 2))
+    add("sr: a second read differs", "sr", ["C09"], op_is("parse", kind="sr"), lambda e: e["res"]["view"].__setitem__("again", False))
+    add("sr: a fresh parse read in another order differs", "sr", ["C09"], op_is("parse", kind="sr"), lambda e: e["res"].__setitem__("fresh_same", False))
+    add("bye: last() of the source iterator", "bye", ["C04", "C09"], op_is("parse", kind="bye"),
+        lambda e: e["res"]["view"]["ssrcs_alt"].__setitem__("last", []))
+    add("bye: unchecked write returns another size", "bye", ["C06", "C07", "C20"], op_is("write_unchecked"),
+        lambda e: e["res"].__setitem__("n", e["res"]["n"] - 4))
+    add("bye: unchecked write leaves a byte of the reused image", "bye", ["C07", "C20"], op_is("write_unchecked"),
+        lambda e: e["out"].__setitem__(9, e["out"][9] ^ 0x20))
+    add("bye: write over a reused buffer touches a byte beyond n", "bye", ["C17"], op_is("write_into", fill=4),
+        lambda e: e["out"].__setitem__(e["res"]["n"], e["out"][e["res"]["n"]] ^ 0xff))
+    add("nit: interleaved iteration of two lists mixes them", "nit", ["C15"], op_is("nack_pair"),
+        lambda e: e["res"]["a"].__setitem__(0, e["res"]["b"][0]))
+    add("all: typed value wrapped into the generic enum changes", "all", ["C12"], op_is("parse_all"),
+        lambda e: e["typed"]["rr"]["as_packet"].__setitem__("same", False))
+    add("compound: iteration by nth() differs from next()", "compound", ["C11", "C14"], op_is("cparse"),
+        lambda e: e["alt"]["nth"][1].__setitem__(1, []))
     add("bye: reason slice offset", "bye", ["C04", "C09"], op_is("parse", kind="bye"), lambda e: e["res"]["view"]["reason"].__setitem__("o", e["res"]["view"]["reason"]["o"] + 1))
     add("bye: padding accessor", "bye", ["C04", "C08"], op_is("parse", kind="bye"), lambda e: e["res"]["view"]["hdr"].__setitem__("padding", 8))
     add("bye: padding trailer byte", "bye", ["C07", "C20"], op_is("write_into"), lambda e: e["out"].__setitem__(e["res"]["n"] - 1, 8))
